@@ -175,6 +175,61 @@ theorem retry_exhausted {s : Sock} {f : Q α} {A : Type} (del : A → List Deliv
       have := retry_again h1 (herr a) h2
       simpa [Faults.lastError, List.append_assoc] using this
 
+/-- `retry_recovers` for failed attempts that satisfy a side condition `ok` (e.g. the datagrams an attempt receives before
+the silence are parts of the reply) -/
+theorem retry_recovers_of {s : Sock} {f : Q α} {A : Type} (ok : A → Prop) (del : A → List Delivery)
+    (flt : A → List Bool) (snd : A → List (Bytes × Bool)) (err : A → ErrKind) (herr : ∀ a, (err a).isTimeout = true)
+    (hstep : ∀ a, ok a → ∀ q fs sn, Steps s f (.err (err a)) ⟨del a ++ q, flt a ++ fs, sn⟩ ⟨q, fs, sn ++ snd a⟩)
+    {R : Res α} (hR : ∀ k, R = .err k → k.isTimeout = false)
+    (dq q' : List Delivery) (df fs' : List Bool) (ds : List (Bytes × Bool))
+    (hfin : ∀ sn, Steps s f R ⟨dq, df, sn⟩ ⟨q', fs', sn ++ ds⟩) :
+    ∀ (fails : List A) (r : Nat) (sn : List (Bytes × Bool)), (∀ a ∈ fails, ok a) → fails.length ≤ r →
+      Steps s (retryOnTimeout r f) R ⟨fails.flatMap del ++ dq, fails.flatMap flt ++ df, sn⟩
+        ⟨q', fs', sn ++ (fails.flatMap snd ++ ds)⟩ := by
+  intro fails
+  induction fails with
+  | nil =>
+    intro r sn _ _
+    simpa using retry_done (hfin sn) hR r
+  | cons a rest ih =>
+    intro r sn hok hr
+    obtain ⟨r', rfl⟩ : ∃ r', r = r' + 1 := ⟨r - 1, by simp at hr; omega⟩
+    have h1 := hstep a (hok a (by simp)) (rest.flatMap del ++ dq) (rest.flatMap flt ++ df) sn
+    have h2 := ih r' (sn ++ snd a) (fun b hb => hok b (by simp [hb])) (by simp at hr; omega)
+    have := retry_again h1 (herr a) h2
+    simpa [List.append_assoc] using this
+
+/-- `retry_exhausted` for failed attempts that satisfy a side condition `ok` -/
+theorem retry_exhausted_of {s : Sock} {f : Q α} {A : Type} (ok : A → Prop) (del : A → List Delivery)
+    (flt : A → List Bool) (snd : A → List (Bytes × Bool)) (err : A → ErrKind) (herr : ∀ a, (err a).isTimeout = true)
+    (hstep : ∀ a, ok a → ∀ q fs sn, Steps s f (.err (err a)) ⟨del a ++ q, flt a ++ fs, sn⟩ ⟨q, fs, sn ++ snd a⟩)
+    (q : List Delivery) (fs : List Bool) :
+    ∀ (r : Nat) (fails : List A) (sn : List (Bytes × Bool)), (∀ a ∈ fails, ok a) → fails.length = r + 1 →
+      Steps s (retryOnTimeout r f) (.err (Faults.lastError err fails))
+        ⟨fails.flatMap del ++ q, fails.flatMap flt ++ fs, sn⟩ ⟨q, fs, sn ++ fails.flatMap snd⟩ := by
+  intro r
+  induction r with
+  | zero =>
+    intro fails sn hok hlen
+    match fails, hok, hlen with
+    | [a], hok, _ => simpa [Faults.lastError] using retry_zero (hstep a (hok a (by simp)) q fs sn)
+  | succ r ih =>
+    intro fails sn hok hlen
+    match fails, hok, hlen with
+    | a :: b :: rest, hok, hlen =>
+      have h1 := hstep a (hok a (by simp)) ((b :: rest).flatMap del ++ q) ((b :: rest).flatMap flt ++ fs) sn
+      have h2 := ih (b :: rest) (sn ++ snd a) (fun c hc => hok c (List.mem_cons_of_mem _ hc)) (by simpa using hlen)
+      have := retry_again h1 (herr a) h2
+      simpa [Faults.lastError, List.append_assoc] using this
+
+/-- a computation whose fuel is taken from the number of queued deliveries (`queued s w + 1`): any fuel above the queue's
+length will do -/
+theorem fuelled {s : Sock} {g : Nat → Q α} {r : Res α} {σ σ' : St}
+    (h : ∀ n, σ.q.length < n → Steps s (g n) r σ σ') :
+    Steps s (fun w => g ((w.conns.getD s.id []).length + 1) w) r σ σ' := by
+  intro w hw
+  exact h ((w.conns.getD s.id []).length + 1) (by rw [hw.queue]; omega) w hw
+
 /-! ### `maybe_gather!` -/
 
 theorem gather_skip (s : Sock) (f : Q α) (σ : St) : Steps s (maybeGather .skip f) (.ok none) σ σ :=
@@ -201,6 +256,30 @@ theorem gather_enforce_err {s : Sock} {f : Q α} {k : ErrKind} {σ σ' : St} (h 
   intro w hw
   obtain ⟨w', h1, h2⟩ := h w hw
   exact ⟨w', by simp only [Gd.maybeGather]; rw [Q.bind_apply, h1], h2⟩
+
+/-- what `maybe_gather!` (toggle not Skip) makes of the outcome of the gathered computation -/
+def gatherRes {α : Type} (t : Toggle) : Res α → Res (Option α)
+  | .ok a => .ok (some a)
+  | .err k => if t = .try_ then .ok none else .err k
+  | .crash => .crash
+
+theorem gather {s : Sock} {f : Q α} {r : Res α} {σ σ' : St} (h : Steps s f r σ σ') (t : Toggle) (ht : t ≠ .skip) :
+    Steps s (maybeGather t f) (gatherRes t r) σ σ' := by
+  cases r with
+  | ok a => exact gather_ok h t ht
+  | err k =>
+    cases t with
+    | skip => exact absurd rfl ht
+    | try_ => exact gather_try_err h
+    | enforce => exact gather_enforce_err h
+  | crash =>
+    intro w hw
+    obtain ⟨w', h1, h2⟩ := h w hw
+    refine ⟨w', ?_, h2⟩
+    cases t with
+    | skip => exact absurd rfl ht
+    | try_ => simp only [Gd.maybeGather, h1, gatherRes]
+    | enforce => simp only [Gd.maybeGather, gatherRes]; rw [Q.bind_apply, h1]
 
 end Steps
 
@@ -362,6 +441,18 @@ theorem query1_plan {α β : Type} (port retries : Nat) (req : Bytes) (size : Na
     (fun a _ => Steps.lift _ _ _)).outcome
     ⟨[], [p.deliveries ++ restQ], p.faults ++ restF, [.opened 0 false port false]⟩ ⟨rfl, by simp, by simp, rfl⟩
   simpa using h
+
+/-- A whole query of the shape "open a UDP socket, then `f` on it" on a script of one connection: result and sent list are
+those of `f`'s `Steps` fact from the state in which the script is queued and nothing has been sent. -/
+theorem openUdp_outcome {α : Type} (port : Nat) (f : Sock → Q α) (r : Res α) (q : List Delivery) (fs : List Bool)
+    (σ' : St) (h : Steps ⟨0, port, false⟩ (f ⟨0, port, false⟩) r ⟨q, fs, []⟩ σ') :
+    ((openSock false port >>= f) (Net.init [.opened q] fs)).1 = r
+    ∧ sentOf ((openSock false port >>= f) (Net.init [.opened q] fs)).2.log = σ'.sent := by
+  rw [Q.bind_apply]
+  have ho : openSock false port (Net.init [.opened q] fs)
+      = (.ok ⟨0, port, false⟩, ⟨[], [q], fs, [.opened 0 false port false]⟩) := rfl
+  rw [ho]
+  exact h.outcome ⟨[], [q], fs, [.opened 0 false port false]⟩ ⟨rfl, by simp, by simp, rfl⟩
 
 /-- every datagram sent is the request; there are as many as attempts -/
 theorem Plan1.sends_length (req : Bytes) (p : Faults.Plan1) : (p.sends req).length = p.attempts := by
